@@ -200,8 +200,7 @@ CORPUS_EXPECT = {
     "usage-instance-renamed-to-consul": ("kindnames", "instance-redefined"),
     "topology-upstream-dropped": ("topology", "upstream-dropped-or-instance-redefined-or-wildcard-gateway"),
     "gateway-ingress-wildcard-order": ("gateway-services", "wildcard-order"),
-    "topology-mixed-case-node-respelled": ("topology", "node-respelled"),
-    # regression cases of the repaired findings (8e1bd1c, acb191c, 10e7cca, 0bb54ea, a882280, 948377c): any oracle
+    # regression cases of the repaired findings (8e1bd1c, acb191c, 10e7cca, 0bb54ea, a882280, 948377c, dc11ff4): any oracle
     # failure of the repaired view on them has no excluded class and is therefore reported as a VIOLATION with
     # the corpus history as its replay
     "vip-proxy-outlives-assignment": None,
@@ -212,6 +211,7 @@ CORPUS_EXPECT = {
     # mixed-case names (oracle-only universe): a proxy with upstreams on a node with upper-case letters,
     # deregistered by service and by node
     "topology-mixed-case-node": None,
+    "topology-mixed-case-node-respelled": None,   # regression case of dc11ff4
 }
 
 
